@@ -26,7 +26,7 @@ META = {
     'evaluation_counters': ['judged_attributes', 'judged_minimal'],
     'required_counters': ['judged_attributes', 'judged_minimal', 'judged_minimal_infimum',
                           'judged_empty_extent', 'judged_nonempty_bottom', 'judged_abandoned',
-                          'regenerated_via_lattice_call', 'interleaved_enumerations'],
+                          'regenerated_via_lattice_call', 'interleaved_enumerations', 'bigintent_cases'],
     'shards': {'quick': 16, 'thorough': 16},
     'exhaustive': {'quick': 'all tables <= 3x3 x all concepts', 'thorough': 'all tables <= 3x3, 3x4, 4x3, 4x4 x all concepts'},
     'assumptions': ['intents larger than the bound are skipped (counted)'],
@@ -67,7 +67,7 @@ class AttributesMonitor(Monitor):
             return
         e, i = view.masks[k]
         sh = view.sh
-        if len(bits(i)) > self.bound:
+        if len(bits(i)) > (STATE['bound'] or self.bound):
             COL.count('skipped_intent_too_large')
             return
         lat = view.lattice
@@ -127,7 +127,7 @@ class MinimalMonitor(Monitor):
             return
         e, i = view.masks[k]
         sh = view.sh
-        if len(bits(i)) > self.bound and e != 0 and k != 0:
+        if len(bits(i)) > (STATE['bound'] or self.bound) and e != 0 and k != 0:
             COL.count('skipped_intent_too_large')
             return
         COL.count('judged_minimal')
@@ -159,7 +159,58 @@ def setup(concepts, spec):
     POOL = common.Pool(5)
 
 
+def bigintent_cases(tier):
+    """A concept with 17-18 properties in its intent (> 65 536 subsets): thresholds inside the
+    enumeration only show there; the driver suspends its enumeration while others run."""
+    import random as _r
+    for m in ([17] if tier == 'quick' else [17, 18, 18]):
+        rng = _r.Random(f'bigintent{m}')
+        n = 7
+        full = (1 << m) - 1
+        rows = [full, full & ~(1 << 3), full & ~(1 << (m - 1)), rng.getrandbits(m), rng.getrandbits(m),
+                full & ~1 & ~(1 << 5), rng.getrandbits(m) | rng.getrandbits(m)]
+        yield dict(gen.case(f'BIGINTENT{m}', rows, m, 'plain'), bigintent=True)
+
+
+def run_bigintent(concepts, case, spec):
+    ctx = common.build_or_skip(concepts, case)
+    if ctx is None:
+        return
+    sh = attach.shadow_of(ctx)
+    lat = common.get_lattice(ctx)
+    if lat is RAISED:
+        return
+    members = list(lat)
+    COL.count('bigintent_cases')
+    big = max(members, key=lambda c: (len(c.intent) if c.extent else -1))
+    others = [c for c in members if c is not big and c.extent and 3 <= len(c.intent) <= 12][:4]
+    STATE['bound'] = 20
+    try:
+        it1 = call(big.attributes)
+        if it1 is RAISED:
+            return
+        for _ in range(70000):                  # suspend the big enumeration far in
+            if next(it1, None) is None:
+                break
+        for c in others:                        # other enumerations on the same context meanwhile
+            call(c.minimal)
+            g = call(c.attributes)
+            if g is not RAISED:
+                call(list, g)
+        call(big.minimal)
+        call(list, it1)                         # judged at exhaustion against brute force
+        g = call(big.attributes)                # and once more, sequentially
+        if g is not RAISED:
+            call(list, g)
+    finally:
+        STATE['bound'] = None
+
+
+STATE = {'bound': None}
+
+
 def cases(tier, seed, spec):
+    yield from bigintent_cases(tier)
     bound = MAX_INTENT[tier]
     for c in gen.ctx_stream(tier, seed, with_wide=False, max_rnd=(8, 8) if tier == 'quick' else (12, 12)):
         if len(c['properties']) <= bound:
@@ -167,6 +218,8 @@ def cases(tier, seed, spec):
 
 
 def run_case(concepts, case, spec):
+    if case.get('bigintent'):
+        return run_bigintent(concepts, case, spec)
     rng = common.rng_for(case, spec)
     ctx = common.build_or_skip(concepts, case)
     if ctx is None:
